@@ -134,7 +134,19 @@ example :
     bisectEntry es [97] true = some ⟨0o040000, [97], [2]⟩ ∧ bisectEntry es [97] false = none := by
   decide
 
--- the slash-free hypothesis is needed: the probe `a/` (as a file) "finds" the tree `a`
+/-- OUTSIDE the property's domain (the property quantifies over slash-free names only), stated
+exactly: a probe `q ++ "/" ++ rest` — whatever `rest` and whichever kind is asked for — behaves
+like looking up the directory `q`: it returns an entry iff the tree holds a DIRECTORY named `q`
+(and that entry's name is `q`, not the probe). The comparison only looks at one byte after the
+common prefix. Not a contradiction of the property text (its names are slash-free; a path with a
+slash is not a name in one tree), so no defect handling; callers must split paths first. -/
+theorem bisect_slash_probe (es : List Entry) (hl : NamesOk es) (hs : Sorted es) (q rest : Bytes)
+    (d : Bool) (hq : SlashFree q) (e : Entry) :
+    bisectEntry es (q ++ 47 :: rest) d = some e ↔ e ∈ es ∧ e.name = q ∧ e.isTree = true := by
+  rw [bisectEntry_slash_probe es hl q rest d hq]
+  exact bisect_correct es hl hs q true hq e
+
+-- e.g. the probe `a/` (as a file) "finds" the tree `a`
 example : bisectEntry [⟨0o040000, [97], [2]⟩] [97, 47] false = some ⟨0o040000, [97], [2]⟩ := by decide
 
 end GixModel.Props.C03
